@@ -5,3 +5,12 @@ claim('C20',
       'arithmetic where the rare inputs (newline adjacency, end position) are exactly what a solver enumerates.',
       'Trusts CrossHair/z3 models of str/int and bisect; bound on string length; the oracle in props/C20.py.',
       'DESIGN.md section 4 C20')
+claim('C11',
+      'Bounded-exhaustive symbolic execution of the real LatexTokenReader: for every Unicode string up to the stated '
+      'length and each listed parsing-state configuration, in strict and tolerant token reading, all paths of the '
+      'read loop were exhausted with the assertions reconstruction == input, strict advance, <= len(s) reads, '
+      'peek == next without moving, move-back + re-read == same token. Right level: the failures (zero-width recovery '
+      'token on a trailing escape character, a peek that moves) need one specific last character or a forbidden '
+      'character, which the solver finds and sampling rarely does.',
+      'Trusts CrossHair/z3 string models; bounds on length and the configuration list in props/C11.py.',
+      'DESIGN.md section 4 C11')
